@@ -1745,6 +1745,8 @@ func (t *itype) lookupField(name string) []int {
 			return []int{fi}
 		}
 
+		// The field promoted from the shallowest embedded field is selected.
+		var index []int
 		for i, f := range typ.field {
 			switch f.typ.cat {
 			case ptrT, structT, interfaceT, linkedT:
@@ -1753,13 +1755,13 @@ func (t *itype) lookupField(name string) []int {
 					// Struct fields are not valid interface fields.
 					break
 				}
-				if index2 := lookup(f.typ); len(index2) > 0 {
-					return append([]int{i}, index2...)
+				if index2 := lookup(f.typ); len(index2) > 0 && (index == nil || len(index2)+1 < len(index)) {
+					index = append([]int{i}, index2...)
 				}
 			}
 		}
 
-		return nil
+		return index
 	}
 
 	return lookup(t)
@@ -1847,13 +1849,16 @@ func (t *itype) lookupMethod2(name string, seen map[*itype]bool) (*node, []int) 
 	var index []int
 	m := t.getMethod(name)
 	if m == nil {
+		// The method promoted from the shallowest embedded field is selected.
 		for i, f := range t.field {
 			if f.embed {
-				if n, index2 := f.typ.lookupMethod2(name, seen); n != nil {
-					index = append([]int{i}, index2...)
-					return n, index
+				if n, index2 := f.typ.lookupMethod2(name, seen); n != nil && (m == nil || len(index2)+1 < len(index)) {
+					m, index = n, append([]int{i}, index2...)
 				}
 			}
+		}
+		if m != nil {
+			return m, index
 		}
 		if t.cat == linkedT || isInterfaceSrc(t) && t.val != nil {
 			return t.val.lookupMethod2(name, seen)
